@@ -21,7 +21,8 @@ EXPLANATION = (
     "and every kept entry its renumbered row, value and count."
     " R2 also requires that the drop test compares the entry b[idx] itself (not |b|), with comparisons normalised to one orientation."
     " R2 also: the row cursor into b starts at 0 and only advances - by one per examined row, by nvars over a skipped cone."
-    " R7 also: every return of select_rows is the matrix allocated for the reduced size (never a clone of the input).")
+    " R7 also: every return of select_rows is the matrix allocated for the reduced size (never a clone of the input)."
+    ' R2 also: a resized nonnegative cone gets the count of kept markers inside its own window, not a running total.')
 ASSUMPTIONS = ['rustc MIR construction and trait resolution are correct',
                'CscMatrix::select_rows / select keep the order of the retained rows (C16 territory)']
 
@@ -226,6 +227,12 @@ def drop_condition(rep, F, tag):
             for p in pushes:
                 if 'SupportedConeT::NonnegativeConeT(' in p:
                     R.check(bool(ck) and val[ck[0]] == nn, 'resize-only-nn' + tag, 'a cone is replaced by a NonnegativeConeT on a non-NN path', rc.loc())
+                    # ... with the number of kept rows of *this* cone: the count of the markers in its own take(nvars) window, not a running total
+                    m_ = re.search(r'SupportedConeT::NonnegativeConeT\((.*)\)\)$', p)
+                    cnt = m_.group(1) if m_ else p
+                    R.check(cnt.startswith('count(filter(') and 'nvars(' in cnt, 'resize-own-count' + tag,
+                            'the resized nonnegative cone gets the size %s: expected the count of kept markers inside this cone\'s window (a loop-carried total gives every '
+                            'later cone the cumulative count, and the cone list no longer matches the reduced rows)' % cnt[:100], rc.loc())
                 else:
                     R.check('@Some.0)' in p and (not ck or val[ck[0]] != nn), 'others-cloned' + tag, 'non-NN cone pushed as %s' % p[:80], rc.loc())
 
